@@ -321,7 +321,7 @@ PROPS["C16"] = dict(
     ],
     gates=dict(evaluations=(800, 15000), distinct=(100, 400),
                counters={"fault_runs_injected": (600, 8000), "sessions_with_every_single_fault_point_enumerated": (40, 300), "shard_uploads_order_checked": (150, 3000),
-                         "error_surfaced_at_add_data": (10, 300), "error_surfaced_at_finalize": (100, 3000), "io_error_points_localput": (150, 2000)}),
+                         "error_surfaced_at_add_data": (10, 300), "error_surfaced_at_finalize": (100, 3000), "io_error_points_localput": (150, 2000), "dry_run_sessions_before_a_real_one": (30, 1000)}),
     exhaustive_note="single-fault points: every put and upload_shard ordinal of a session when the session has <= max-points store calls",
     # I/O errors underneath the local store client (strace error injection, one failing write / fsync / rename per run)
     extra_crash=dict(crash_modes=("ioerr",), crash_ops=("localput",), seeds=(6, 40), max_points=(60, 400)),
